@@ -1,9 +1,16 @@
-"""isinstance-ladder extraction and subclass-before-superclass order rule (C02.R2, C04, C11.R5)."""
+"""Type dispatch of a function on one subject, and the subclass-before-superclass rule (C02.R2, C04, C11.R5).
+
+The rule is decided on what the dispatch function *answers for a value of a given class* (`Dispatch`, an abstract run of
+the function body), not on the position of `if isinstance(...)` statements: guard clauses, elif chains, a result variable
+with break, a first-match loop over a table of (classes, outcome) pairs, `next(...)` over such a table and an exact-class
+look-up `TABLE.get(type(x))` in front of the ladder are all read alike."""
 import ast
+import copy
 from typing import List, Tuple
 
 from .. import astutil as A
 from ..fa import FA
+from ..loader import AnalysisError
 
 # (subclass, superclass): facts about Python / the standard library / pandas
 BUILTIN_SUBCLASS = [
@@ -50,6 +57,1114 @@ def repo_subclass_pairs(ck) -> List[Tuple[str, str]]:
                     ps.add((a, d))
                     changed = True
     return sorted(ps)
+
+
+_MUTATORS = ("append", "extend", "insert", "update", "add", "setdefault", "pop", "popitem", "remove", "discard", "clear", "sort", "reverse")
+
+
+def _filled_elsewhere(mod, name):
+    """Is the module-level container `name` also changed after its definition (a registry filled by a decorator, entries
+    added key by key)?  Then the expression it was created from does not say what it holds."""
+    memo = mod.__dict__.setdefault("_filled_elsewhere_memo", {})
+    if name not in memo:
+        hit = False
+        for n in ast.walk(mod.tree):
+            if isinstance(n, ast.Call) and isinstance(n.func, ast.Attribute) and n.func.attr in _MUTATORS \
+                    and isinstance(n.func.value, ast.Name) and n.func.value.id == name:
+                hit = True
+            elif isinstance(n, ast.Subscript) and isinstance(n.ctx, (ast.Store, ast.Del)) and isinstance(n.value, ast.Name) and n.value.id == name:
+                hit = True
+            elif isinstance(n, ast.AugAssign) and isinstance(n.target, ast.Name) and n.target.id == name:
+                hit = True
+            if hit:
+                break
+        memo[name] = hit
+    return memo[name]
+
+
+def _bound_value(fa, e, at):
+    """The expression a name stands for, when that is evident: a local with one reaching plain assignment, a module-level
+    name of this module or of the repository module it is imported from, a class-level constant read as `self.X` / `cls.X` /
+    `Class.X` in a method of that class (and never assigned through an instance).  None otherwise."""
+    if isinstance(e, ast.Name):
+        if fa.df.is_local(e.id):
+            ds = fa.df.reaching(at, e.id)
+            if len(ds) == 1 and ds[0].kind == "assign" and ds[0].value is not None:
+                return ds[0].value
+            return None
+        mod = fa.fi.module
+        if e.id in mod.assigns:
+            return None if _filled_elsewhere(mod, e.id) else mod.assigns[e.id]
+        origin = mod.imports.get(e.id)
+        if origin and ":" in origin:
+            m_, n_ = origin.split(":", 1)
+            other = fa.ck.repo.modules.get(m_.lstrip(".").split(".")[-1])
+            if other is not None and n_ in other.assigns:
+                return None if _filled_elsewhere(other, n_) else other.assigns[n_]
+        return None
+    if isinstance(e, ast.Attribute) and isinstance(e.value, ast.Name):
+        k = fa.fi.cls
+        while k is not None:
+            if e.value.id in ("self", "cls", k.name):
+                for st in k.node.body:
+                    for (tg, v) in ([(t, st.value) for t in st.targets] if isinstance(st, ast.Assign) else
+                                    [(st.target, st.value)] if isinstance(st, ast.AnnAssign) and st.value is not None else []):
+                        if isinstance(tg, ast.Name) and tg.id == e.attr:
+                            stores = [n for m in k.methods.values() for n in ast.walk(m.node)
+                                      if isinstance(n, ast.Attribute) and n.attr == e.attr and isinstance(n.ctx, (ast.Store, ast.Del))]
+                            return None if stores else v
+            k = getattr(k, "outer", None)
+    return None
+
+
+def enum_members(fa, e):
+    """`Cls.member` expressions of a repository Enum class named by `e`, in definition order, else None."""
+    if not isinstance(e, ast.Name) or fa.df.is_local(e.id):
+        return None
+    cl = fa.ck.repo.classes_named(e.id)
+    if len(cl) != 1 or not any(A.norm(b).split(".")[-1] in ("Enum", "IntEnum", "Flag") for b in cl[0].node.bases):
+        return None
+    return [ast.Attribute(value=ast.Name(id=e.id, ctx=ast.Load()), attr=t.id, ctx=ast.Load())
+            for st in cl[0].node.body if isinstance(st, ast.Assign) for t in st.targets if isinstance(t, ast.Name)]
+
+
+def _literal_seq(fa, it, at, _depth=0):
+    """Elements of a literal tuple / list / set (possibly bound to a local, module-level or class-level name), or the
+    members of a repository Enum class that is iterated; else None."""
+    if isinstance(it, (ast.Tuple, ast.List, ast.Set)):
+        return list(it.elts)
+    if _depth > 4:
+        return None
+    if isinstance(it, ast.Call) and A.call_dotted(it) in ("tuple", "list", "sorted", "frozenset", "set") and len(it.args) == 1 and not it.keywords:
+        return _literal_seq(fa, it.args[0], at, _depth + 1)
+    if isinstance(it, ast.Call) and A.call_dotted(it) == "zip" and len(it.args) >= 2 and not it.keywords:
+        cols = [_literal_seq(fa, a, at, _depth + 1) for a in it.args]
+        if any(c is None for c in cols) or len({len(c) for c in cols}) != 1:
+            return None
+        return [ast.Tuple(elts=list(row), ctx=ast.Load()) for row in zip(*cols)]
+    if isinstance(it, ast.BinOp) and isinstance(it.op, ast.Add):
+        l, r = _literal_seq(fa, it.left, at, _depth + 1), _literal_seq(fa, it.right, at, _depth + 1)
+        return None if l is None or r is None else l + r
+    if isinstance(it, (ast.ListComp, ast.GeneratorExp)):
+        bs = comprehension_elements(fa, it.generators, at)
+        return None if bs is None else [subst(it.elt, b) for b in bs]
+    v = _bound_value(fa, it, at)
+    if v is not None:
+        if isinstance(it, ast.Name) and fa.df.is_local(it.id):
+            at = fa.df.reaching(at, it.id)[0].node
+        return _literal_seq(fa, v, at, _depth + 1)
+    return enum_members(fa, it)
+
+
+def subst(expr, mapping):
+    """Copy of `expr` with the names of `mapping` replaced by expressions; `getattr(x, "name")` is read as `x.name`."""
+    class T(ast.NodeTransformer):
+        def visit_Name(self, n):
+            if isinstance(n.ctx, ast.Load) and n.id in mapping:
+                return copy.deepcopy(mapping[n.id])
+            return n
+
+        def visit_Call(self, n):
+            self.generic_visit(n)
+            if isinstance(n.func, ast.Name) and n.func.id == "getattr" and len(n.args) == 2 and not n.keywords \
+                    and isinstance(n.args[1], ast.Constant) and isinstance(n.args[1].value, str) and n.args[1].value.isidentifier():
+                return ast.Attribute(value=n.args[0], attr=n.args[1].value, ctx=ast.Load())
+            return n
+    return T().visit(copy.deepcopy(expr))
+
+
+def bind_target(target, elem):
+    """{name: expression} for `target` bound to the element `elem` of a literal sequence, else None."""
+    if isinstance(target, ast.Name):
+        return {target.id: elem}
+    if isinstance(target, (ast.Tuple, ast.List)) and isinstance(elem, (ast.Tuple, ast.List)) and len(target.elts) == len(elem.elts):
+        out = {}
+        for t, e in zip(target.elts, elem.elts):
+            sub = bind_target(t, e)
+            if sub is None:
+                return None
+            out.update(sub)
+        return out
+    return None
+
+
+def static_truth(t, fa=None):
+    """Truth of a test over constants and global dotted names (enum members, classes), when that is evident."""
+    if isinstance(t, ast.Constant):
+        return bool(t.value)
+    if isinstance(t, ast.UnaryOp) and isinstance(t.op, ast.Not):
+        r = static_truth(t.operand, fa)
+        return None if r is None else (not r)
+    if isinstance(t, ast.BoolOp):
+        rs = [static_truth(v, fa) for v in t.values]
+        if isinstance(t.op, ast.And):
+            return False if any(r is False for r in rs) else (True if all(r is True for r in rs) else None)
+        return True if any(r is True for r in rs) else (False if all(r is False for r in rs) else None)
+    if isinstance(t, ast.Compare) and len(t.ops) == 1:
+        def atom(e):
+            if isinstance(e, ast.Constant):
+                return ("c", repr(e.value))
+            d = A.dotted(e)
+            if d is None or "." not in d:
+                return None
+            if fa is None or fa.df.is_local(d.split(".")[0]):
+                return None   # rooted in a local / parameter: not a constant
+            return ("d", d)
+        op, l, r = t.ops[0], atom(t.left), t.comparators[0]
+        if l is None:
+            return None
+        if isinstance(op, (ast.Is, ast.IsNot, ast.Eq, ast.NotEq)):
+            ra = atom(r)
+            if ra is None:
+                return None
+            same = (l == ra)
+            return same if isinstance(op, (ast.Is, ast.Eq)) else (not same)
+        if isinstance(op, (ast.In, ast.NotIn)) and isinstance(r, (ast.Tuple, ast.List, ast.Set)):
+            ras = [atom(x) for x in r.elts]
+            if any(x is None for x in ras):
+                return None
+            found = l in ras
+            return found if isinstance(op, ast.In) else (not found)
+    return None
+
+
+def fold_lookups(fa, expr, at):
+    """Copy of `expr` in which `TABLE.get(key[, default])` / `TABLE[key]` on a literal table (display, or a local / module-level
+    name bound to one) with an evident key (constant, or dotted global such as an enum member) is replaced by the entry."""
+    def key_text(k):
+        if isinstance(k, ast.Constant):
+            return "c:" + repr(k.value)
+        d = A.dotted(k)
+        return "d:" + d if d is not None and "." in d else None
+
+    def lookup(tab, key, default):
+        kt = key_text(key)
+        if kt is None:
+            return None
+        try:
+            ent = table_entries(fa, tab, at)
+        except Exception:
+            ent = None
+        if ent is None:
+            return None
+        hit, evident = None, True
+        for (k, v) in ent:
+            t = key_text(k)
+            if t is None:
+                evident = False
+            elif t == kt:
+                hit = v
+        if hit is not None:
+            return hit
+        return default if evident else None
+
+    class T(ast.NodeTransformer):
+        def visit_Call(self, n):
+            self.generic_visit(n)
+            if isinstance(n.func, ast.Attribute) and n.func.attr == "get" and 1 <= len(n.args) <= 2 and not n.keywords \
+                    and isinstance(n.func.value, (ast.Name, ast.Dict, ast.Attribute)):
+                r = lookup(n.func.value, n.args[0], n.args[1] if len(n.args) == 2 else ast.Constant(value=None))
+                if r is not None:
+                    return copy.deepcopy(r)
+            return n
+
+        def visit_Subscript(self, n):
+            self.generic_visit(n)
+            if isinstance(n.ctx, ast.Load) and isinstance(n.value, (ast.Name, ast.Dict)):
+                r = lookup(n.value, n.slice, None)
+                if r is not None:
+                    return copy.deepcopy(r)
+            return n
+
+    return T().visit(copy.deepcopy(expr))
+
+
+def comprehension_elements(fa, gens, at, possible=False):
+    """[{name: expression}] -- one binding per element that a single `for <target> in <literal sequence> [if ...]` clause
+    lets through, in order; None when the clause is not understood.  possible=True: an element whose filter cannot be
+    decided is kept (what the comprehension may yield)."""
+    if len(gens) != 1 or gens[0].is_async:
+        return None
+    g = gens[0]
+    seq = _literal_seq(fa, g.iter, at)
+    if seq is None:
+        return None
+    out = []
+    for el in seq:
+        b = bind_target(g.target, el)
+        if b is None:
+            return None
+        keep = True
+        for c in g.ifs:
+            tv = static_truth(fold_lookups(fa, subst(c, b), at), fa)
+            if tv is None:
+                if possible:
+                    continue
+                return None
+            keep = keep and tv
+        if keep:
+            out.append(b)
+    return out
+
+
+def table_entries(fa, expr, at, _depth=0):
+    """(key, value) pairs of a dictionary-building expression: a literal (with ** parts), a comprehension over a
+    literal sequence (or over an Enum class, with simple filters), dict.fromkeys, dict(k=v), `a | b`, a local /
+    module-level name bound to one of these.  None if not understood."""
+    if _depth > 6 or expr is None:
+        return None
+    if isinstance(expr, ast.Dict):
+        out = []
+        for k, v in zip(expr.keys, expr.values):
+            if k is None:
+                sub = table_entries(fa, v, at, _depth + 1)
+                if sub is None:
+                    return None
+                out += sub
+            else:
+                out.append((k, v))
+        return out
+    if isinstance(expr, ast.DictComp):
+        bs = comprehension_elements(fa, expr.generators, at)
+        if bs is None:
+            return None
+        return [(subst(expr.key, b), fold_lookups(fa, subst(expr.value, b), at)) for b in bs]
+    if isinstance(expr, ast.Call) and A.call_dotted(expr) == "dict.fromkeys" and len(expr.args) == 2:
+        seq = _literal_seq(fa, expr.args[0], at)
+        return [(e, expr.args[1]) for e in seq] if seq is not None else None
+    if isinstance(expr, ast.Call) and A.call_dotted(expr) == "dict" and len(expr.args) <= 1 and all(k.arg is not None for k in expr.keywords) \
+            and (expr.args or expr.keywords):
+        base = table_entries(fa, expr.args[0], at, _depth + 1) if expr.args else []
+        if base is None:
+            # dict(<sequence of (key, value) pairs>)
+            rows = _literal_seq(fa, expr.args[0], at, _depth + 1)
+            if rows is None or not all(isinstance(r, (ast.Tuple, ast.List)) and len(r.elts) == 2 for r in rows):
+                return None
+            base = [(r.elts[0], r.elts[1]) for r in rows]
+        return base + [(ast.Constant(value=k.arg), k.value) for k in expr.keywords]
+    if isinstance(expr, ast.BinOp) and isinstance(expr.op, ast.BitOr):
+        l, r = table_entries(fa, expr.left, at, _depth + 1), table_entries(fa, expr.right, at, _depth + 1)
+        return None if l is None or r is None else l + r
+    v = _bound_value(fa, expr, at)
+    if v is not None:
+        if isinstance(expr, ast.Name) and fa.df.is_local(expr.id):
+            at = fa.df.reaching(at, expr.id)[0].node
+        return table_entries(fa, v, at, _depth + 1)
+    return None
+
+
+def sequence_elements(fa, expr, at, _depth=0):
+    """Element expressions of a sequence-building expression, in order: a display, a comprehension / generator over a
+    literal sequence, tuple(...) / list(...) of one, a name bound to one.  None if not understood."""
+    if _depth > 5 or expr is None:
+        return None
+    if isinstance(expr, (ast.Tuple, ast.List)):
+        return None if any(isinstance(x, ast.Starred) for x in expr.elts) else list(expr.elts)
+    if isinstance(expr, (ast.ListComp, ast.GeneratorExp)):
+        bs = comprehension_elements(fa, expr.generators, at)
+        return None if bs is None else [subst(expr.elt, b) for b in bs]
+    if isinstance(expr, ast.Call) and A.call_dotted(expr) in ("tuple", "list") and len(expr.args) == 1 and not expr.keywords:
+        return sequence_elements(fa, expr.args[0], at, _depth + 1)
+    v = _bound_value(fa, expr, at)
+    if v is not None:
+        if isinstance(expr, ast.Name) and fa.df.is_local(expr.id):
+            at = fa.df.reaching(at, expr.id)[0].node
+        return sequence_elements(fa, v, at, _depth + 1)
+    return None
+
+
+# ---------------------------------------------------------------------------------------------
+# Abstract run of a dispatch function for "a value whose class is K"
+# ---------------------------------------------------------------------------------------------
+def resolve_callee(fa, call):
+    """(FuncInfo, number of implicit leading parameters) of a call to a function of the repository that is evident from
+    its spelling: `f(...)` of the same module, `Cls.m(...)`, `self.m(...)` / `cls.m(...)` inside the class.  Else (None, 0)."""
+    d = A.call_dotted(call)
+    if not d:
+        return None, 0
+    parts = d.split(".")
+    repo = fa.ck.repo
+    if len(parts) == 1:
+        if fa.df.is_local(parts[0]):
+            return None, 0
+        f = repo.try_func("%s.%s" % (fa.fi.module.name, parts[0]))
+        return (f, 0) if f is not None and f.cls is None else (None, 0)
+    if len(parts) == 2:
+        owner = None
+        if parts[0] in ("self", "cls") and fa.fi.cls is not None:
+            owner = fa.fi.cls
+        else:
+            cl = repo.classes_named(parts[0])
+            owner = cl[0] if len(cl) == 1 else None
+        if owner is not None:
+            m = repo.find_method(owner, parts[1])
+            if m is not None:
+                return m, (0 if m.is_static else 1)
+    return None, 0
+
+
+class _Unsupported(Exception):
+    """The function uses a construct the abstract run does not model (the caller falls back / fails closed)."""
+
+
+_UNKNOWN_CLASS = "_class_of_subject"
+
+
+def canonical_type_name(fa, e):
+    """Spelling-independent name of a class expression: `datetime` imported from datetime is datetime.datetime, `pandas.X`
+    is pd.X, a repository class is its bare name."""
+    d = A.dotted(e)
+    if d is None:
+        return A.norm(e)
+    parts = d.split(".")
+    imports = getattr(fa.fi.module, "imports", {}) or {}
+    origin = imports.get(parts[0])
+    if fa.df.is_local(parts[0]):
+        # a name imported inside the function
+        origin = None
+        for st in A.walk_body(fa.node):
+            if isinstance(st, ast.ImportFrom) and st.module:
+                for al in st.names:
+                    if (al.asname or al.name) == parts[0]:
+                        origin = ("." * (st.level or 0)) + st.module + ":" + al.name
+            elif isinstance(st, ast.Import):
+                for al in st.names:
+                    if (al.asname or al.name.split(".")[0]) == parts[0]:
+                        origin = al.name if al.asname else al.name.split(".")[0]
+        if origin is not None and sum(1 for n in A.walk_body(fa.node) if isinstance(n, ast.Name) and n.id == parts[0] and isinstance(n.ctx, ast.Store)):
+            origin = None  # also assigned: not just an import
+    if origin:
+        if ":" in origin:
+            m_, n_ = origin.split(":", 1)
+            if m_.startswith(".") or m_.split(".")[0] == "twosigma":
+                full = [n_] + parts[1:]
+            else:
+                full = m_.split(".") + [n_] + parts[1:]
+        else:
+            full = origin.split(".") + parts[1:]
+        if full and full[0] == "pandas":
+            full[0] = "pd"
+        if full and full[0] == "numpy":
+            full[0] = "np"
+        return ".".join(full)
+    return d
+
+
+class Dispatch:
+    """What a function answers for a subject of a given class, decided by running its body abstractly.
+
+    A *world* is (K, kind, mode): the subject's class is exactly K (kind 'exact') or an unnamed proper subclass of K
+    (kind 'sub'; `type(subject)` is then a class no table knows); mode 'actual' answers `isinstance(subject, T)` by the
+    class hierarchy (`pairs`), mode 'own' as if K had no superclass (true only for T == K) -- the outcome the rung written
+    for K itself gives.  `subject is None` holds only in the world of K == 'None'.  Tests the world does not decide are
+    followed both ways.  The outcome of a world is the set of ways the function can end: ('return', value text over
+    parameters and globals), ('raise', exception class), ('fall', '')."""
+
+    CAP = 6000
+
+    def __init__(self, fa, pairs, subject=None):
+        self.fa = fa
+        self.node = fa.node
+        self.sup = {}
+        for (a, b) in pairs:
+            self.sup.setdefault(a, set()).add(b)
+        self.asked = {}      # type name -> node of the first isinstance test that named it
+        self.exact_keys = set()   # class names looked up by type(subject)
+        self.helper_returns = set()   # value texts returned by helpers the subject was handed to
+        self._memo = {}
+        self._work = 0
+        args = self.node.args
+        self.params = [a.arg for a in args.posonlyargs + args.args + args.kwonlyargs]
+        self.subject = subject or self._pick_subject()
+        if self.subject is None:
+            raise _Unsupported("no isinstance dispatch on a parameter")
+        # discover the classes the dispatch names: a value of no known class visits every rung
+        self.outcome(("<no class>", "exact", "own"))
+        for _ in range(3):
+            before = set(self.asked)
+            for k in sorted(before):
+                self.outcome((k, "exact", "actual"))
+            if set(self.asked) == before:
+                break
+
+    # ---- set-up -----------------------------------------------------------------------------------
+    def _pick_subject(self):
+        count = {}
+        for n in A.walk_body(self.node):
+            if isinstance(n, ast.Call) and isinstance(n.func, ast.Name) and n.func.id == "isinstance" and len(n.args) == 2 \
+                    and isinstance(n.args[0], ast.Name):
+                count[n.args[0].id] = count.get(n.args[0].id, 0) + 1
+        best = None
+        for p in self.params:
+            if p in count and (best is None or count[p] > count[best]):
+                best = p
+        if best is not None:
+            return best
+        # the parameter may be aliased first (`value = obj`): take the most tested name that is a copy of a parameter
+        for st in self.node.body:
+            if isinstance(st, ast.Assign) and isinstance(st.value, ast.Name) and st.value.id in self.params:
+                for t in st.targets:
+                    if isinstance(t, ast.Name) and t.id in count:
+                        return st.value.id
+        # the whole dispatch lives in helpers: the value is the one explicit parameter that is handed on
+        explicit = [p for p in self.params if p not in ("self", "cls")]
+        if len(explicit) == 1 and any(isinstance(n, ast.Call) and any(isinstance(a, ast.Name) and a.id == explicit[0] for a in n.args)
+                                      for n in A.walk_body(self.node)):
+            return explicit[0]
+        return None
+
+    def named(self):
+        return sorted(self.asked)
+
+    def where_of(self, name):
+        return self.asked.get(name)
+
+    # ---- worlds -----------------------------------------------------------------------------------
+    def _isa(self, w, tn):
+        (k, kind, mode) = w
+        if k == tn:
+            return True
+        return mode == "actual" and tn in self.sup.get(k, ())
+
+    def outcome(self, w):
+        if w not in self._memo:
+            self._work = 0
+            comps = self._block(self.node.body, {}, w)
+            out = set()
+            for (kind, _env, val) in comps:
+                if kind in ("break", "continue"):
+                    raise _Unsupported("break / continue outside a loop")
+                out.add((kind, val or ""))
+            self._memo[w] = frozenset(out)
+        return self._memo[w]
+
+    # ---- non-local names --------------------------------------------------------------------------
+    def _global_value(self, e):
+        """Value expression of a module-level / class-level / imported constant name, else None."""
+        if isinstance(e, ast.Name):
+            if self.fa.df.is_local(e.id) or e.id in self.params:
+                return None
+            return _bound_value(self.fa, e, None)
+        if isinstance(e, ast.Attribute) and isinstance(e.value, ast.Name):
+            return _bound_value(self.fa, e, None)
+        return None
+
+    def _resolved(self, e, depth=0):
+        while depth < 5:
+            v = self._global_value(e)
+            if v is None:
+                return e
+            e = v
+            depth += 1
+        return e
+
+    def _type_names(self, t):
+        """Class names of the second argument of isinstance (already evaluated), or None."""
+        t = self._resolved(t)
+        if isinstance(t, (ast.Tuple, ast.List, ast.Set)):
+            out = []
+            for el in t.elts:
+                sub = self._type_names(el)
+                if sub is None:
+                    return None
+                out += sub
+            return out
+        if isinstance(t, ast.Call) and isinstance(t.func, ast.Name) and t.func.id == "type" and len(t.args) == 1 and A.is_none(t.args[0]):
+            return ["None"]
+        if A.dotted(t) is not None:
+            return [canonical_type_name(self.fa, t)]
+        return None
+
+    def _dict_entries(self, e):
+        e = self._resolved(e)
+        try:
+            return table_entries(self.fa, e, None)
+        except Exception:
+            return None
+
+    def _seq_elems(self, it, depth=0, env=None, w=None):
+        """Elements a literal iterable yields, in order, else None.  With a store and a world, a comprehension / generator
+        over such an iterable yields its element expression evaluated for each member (a lazy `(f(x) for f in FUNCS)`)."""
+        if depth > 5:
+            return None
+        it = self._resolved(it)
+        if isinstance(it, (ast.GeneratorExp, ast.ListComp)) and w is not None and len(it.generators) == 1 and not it.generators[0].is_async:
+            g = it.generators[0]
+            inner = self._seq_elems(g.iter, depth + 1, env, w)
+            if inner is None:
+                return None
+            out = []
+            for el in inner:
+                e2 = dict(env or {})
+                self._bind(g.target, el, e2)
+                keep = True
+                for c in g.ifs:
+                    t = self._tv(self.ev(c, e2, w))
+                    if t is None:
+                        return None
+                    keep = keep and t
+                if keep:
+                    out.append(self.ev(it.elt, e2, w))
+            return out
+        if isinstance(it, (ast.Tuple, ast.List)):
+            if any(isinstance(x, ast.Starred) for x in it.elts):
+                return None
+            return list(it.elts)
+        if isinstance(it, ast.Dict):
+            ent = self._dict_entries(it)
+            return [k for (k, _v) in ent] if ent is not None else None
+        if isinstance(it, ast.Call):
+            nm, recv = A.call_attr(it), A.call_recv(it)
+            if recv is not None and nm in ("items", "keys", "values") and not it.args:
+                ent = self._dict_entries(recv)
+                if ent is None:
+                    return None
+                if nm == "items":
+                    return [ast.Tuple(elts=[k, v], ctx=ast.Load()) for (k, v) in ent]
+                return [k if nm == "keys" else v for (k, v) in ent]
+            if isinstance(it.func, ast.Name) and it.func.id in ("tuple", "list", "iter") and len(it.args) == 1 and not it.keywords:
+                return self._seq_elems(it.args[0], depth + 1)
+            if isinstance(it.func, ast.Name) and it.func.id == "enumerate" and len(it.args) == 1 and not it.keywords:
+                inner = self._seq_elems(it.args[0], depth + 1)
+                if inner is None:
+                    return None
+                return [ast.Tuple(elts=[ast.Constant(value=i), x], ctx=ast.Load()) for i, x in enumerate(inner)]
+        return None
+
+    # ---- expressions ------------------------------------------------------------------------------
+    def _is_subject(self, e):
+        return isinstance(e, ast.Name) and e.id == self.subject
+
+    def _class_expr(self, w):
+        (k, kind, _m) = w
+        if kind == "sub" or k == "<no class>":
+            return ast.Name(id=_UNKNOWN_CLASS, ctx=ast.Load())
+        if k == "None":
+            return ast.parse("type(None)", mode="eval").body
+        try:
+            return ast.parse(k, mode="eval").body
+        except SyntaxError:
+            return ast.Name(id=_UNKNOWN_CLASS, ctx=ast.Load())
+
+    def _class_key(self, e):
+        """Canonical name of an expression that denotes a class (for exact-class look-ups), else None."""
+        if isinstance(e, ast.Name) and e.id == _UNKNOWN_CLASS:
+            return _UNKNOWN_CLASS
+        d = A.dotted(e)
+        if d is not None and (d.split(".")[0] in self.params or self.fa.df.is_local(d.split(".")[0])):
+            return None
+        ns = self._type_names(e) if not isinstance(e, (ast.Tuple, ast.List, ast.Set)) else None
+        return ns[0] if ns and len(ns) == 1 else None
+
+    def _not_none(self, e):
+        """Evidently not None: a literal, a display, a dotted chain rooted in a global (enum member, class, module)."""
+        if isinstance(e, ast.Constant):
+            return e.value is not None
+        if isinstance(e, (ast.Dict, ast.List, ast.Tuple, ast.Set, ast.JoinedStr, ast.ListComp, ast.DictComp, ast.SetComp, ast.Lambda)):
+            return True
+        d = A.dotted(e)
+        if d is not None and "." in d:
+            root = d.split(".")[0]
+            return root not in self.params and not self.fa.df.is_local(root) and root != _UNKNOWN_CLASS
+        return False
+
+    @staticmethod
+    def _const(v):
+        return ast.Constant(value=v)
+
+    @staticmethod
+    def _tv(e):
+        """Three-valued truth of an evaluated expression."""
+        if isinstance(e, ast.Constant):
+            return bool(e.value)
+        if isinstance(e, (ast.Tuple, ast.List, ast.Set)):
+            return bool(e.elts)
+        if isinstance(e, ast.Dict):
+            return bool(e.keys)
+        return None
+
+    def _lookup(self, table, key, default):
+        """Value of a literal table for an evaluated key, `default` when it is evidently absent, None when unknown."""
+        ent = self._dict_entries(table)
+        if ent is None:
+            return None
+        ck_ = self._class_key(key)
+        if ck_ is not None:
+            keys = [self._class_key(k) for (k, _v) in ent]
+            self.exact_keys |= {kk for kk in keys if kk}
+            hit = None
+            for kk, (_k, v) in zip(keys, ent):
+                if kk is not None and kk == ck_:
+                    hit = v      # later entries of a display win
+            if hit is not None:
+                return hit
+            if all(kk is not None for kk in keys):
+                return default
+            return None
+        if isinstance(key, ast.Constant):
+            hit, allc = None, True
+            for (k, v) in ent:
+                if isinstance(k, ast.Constant):
+                    if k.value == key.value and type(k.value) is type(key.value):
+                        hit = v
+                else:
+                    allc = False
+            if hit is not None:
+                return hit
+            return default if allc else None
+        return None
+
+    def ev(self, e, env, w):
+        self._work += 1
+        if self._work > 400000:
+            raise _Unsupported("too much work")
+        if isinstance(e, ast.Name):
+            if isinstance(e.ctx, ast.Load) and e.id in env:
+                return env[e.id]
+            return e
+        if isinstance(e, ast.Constant):
+            return e
+        if isinstance(e, ast.NamedExpr):
+            v = self.ev(e.value, env, w)
+            if isinstance(e.target, ast.Name):
+                env[e.target.id] = v
+            return v
+        if isinstance(e, (ast.ListComp, ast.SetComp, ast.DictComp, ast.GeneratorExp, ast.Lambda)):
+            bound = set()
+            for x in ast.walk(e):
+                if isinstance(x, ast.comprehension):
+                    bound |= {n.id for n in ast.walk(x.target) if isinstance(n, ast.Name)}
+                if isinstance(x, ast.Lambda):
+                    bound |= {a.arg for a in x.args.args + x.args.kwonlyargs + x.args.posonlyargs}
+            inner = {k: v for k, v in env.items() if k not in bound}
+
+            class T(ast.NodeTransformer):
+                def visit_Name(self, n):
+                    if isinstance(n.ctx, ast.Load) and n.id in inner:
+                        return copy.deepcopy(inner[n.id])
+                    return n
+            return T().visit(copy.deepcopy(e))
+        if isinstance(e, ast.UnaryOp) and isinstance(e.op, ast.Not):
+            v = self.ev(e.operand, env, w)
+            t = self._tv(v)
+            return self._const(not t) if t is not None else ast.UnaryOp(op=ast.Not(), operand=v)
+        if isinstance(e, ast.BoolOp):
+            is_and = isinstance(e.op, ast.And)
+            rest = []
+            for x in e.values:
+                v = self.ev(x, env, w)
+                t = self._tv(v)
+                if t is None:
+                    rest.append(v)
+                elif t != is_and:
+                    # decides the whole operation, unless an undecided operand before it may already have done so
+                    if not rest:
+                        return v
+                    rest.append(v)
+                    break
+                else:
+                    last = v
+            if not rest:
+                return last
+            if len(rest) == 1:
+                return rest[0]
+            # `u and False` / `u or True`: decided whatever u is, as a truth value
+            tl = self._tv(rest[-1])
+            if tl is not None and tl != is_and:
+                return self._const(tl)
+            return ast.BoolOp(op=e.op, values=rest)
+        if isinstance(e, ast.IfExp):
+            t = self.ev(e.test, env, w)
+            tv = self._tv(t)
+            if tv is True:
+                return self.ev(e.body, env, w)
+            if tv is False:
+                return self.ev(e.orelse, env, w)
+            return ast.IfExp(test=t, body=self.ev(e.body, env, w), orelse=self.ev(e.orelse, env, w))
+        if isinstance(e, ast.Compare) and len(e.ops) == 1:
+            l, r, op = self.ev(e.left, env, w), self.ev(e.comparators[0], env, w), e.ops[0]
+            res = self._compare(l, op, r, w)
+            if res is not None:
+                return self._const(res)
+            return ast.Compare(left=l, ops=[op], comparators=[r])
+        if isinstance(e, ast.Attribute):
+            v = self.ev(e.value, env, w)
+            if e.attr == "__class__" and self._is_subject(v):
+                return self._class_expr(w)
+            return ast.Attribute(value=v, attr=e.attr, ctx=ast.Load())
+        if isinstance(e, ast.Subscript):
+            v, s = self.ev(e.value, env, w), self.ev(e.slice, env, w)
+            if isinstance(v, (ast.Tuple, ast.List)) and isinstance(s, ast.Constant) and isinstance(s.value, int) \
+                    and -len(v.elts) <= s.value < len(v.elts) and not any(isinstance(x, ast.Starred) for x in v.elts):
+                return v.elts[s.value]
+            hit = self._lookup(v, s, None)
+            if hit is not None:
+                return hit
+            return ast.Subscript(value=v, slice=s, ctx=ast.Load())
+        if isinstance(e, ast.Call):
+            return self._call(e, env, w)
+        # anything else: evaluate the parts
+        new = copy.copy(e)
+        for f, v in ast.iter_fields(e):
+            if isinstance(v, ast.expr):
+                setattr(new, f, self.ev(v, env, w))
+            elif isinstance(v, list):
+                setattr(new, f, [self.ev(x, env, w) if isinstance(x, ast.expr) else x for x in v])
+        return new
+
+    def _compare(self, l, op, r, w):
+        (k, kind, _m) = w
+        if isinstance(op, (ast.Is, ast.IsNot, ast.Eq, ast.NotEq)):
+            same = None
+            for (a, b) in ((l, r), (r, l)):
+                if A.is_none(b):
+                    if self._is_subject(a):
+                        same = (k == "None")
+                    elif isinstance(a, ast.Constant):
+                        same = a.value is None
+                    elif self._not_none(a):
+                        same = False
+            if same is None and isinstance(l, ast.Constant) and isinstance(r, ast.Constant):
+                same = (l.value == r.value and type(l.value) is type(r.value))
+            if same is None:
+                kl, kr = self._class_key(l), self._class_key(r)
+                lc = isinstance(l, ast.Name) and l.id == _UNKNOWN_CLASS or self._came_from_type(l)
+                rc = isinstance(r, ast.Name) and r.id == _UNKNOWN_CLASS or self._came_from_type(r)
+                if (lc or rc) and kl is not None and kr is not None:
+                    same = (kl == kr) and kl != _UNKNOWN_CLASS
+                    for kk in (kl, kr):
+                        if kk != _UNKNOWN_CLASS:
+                            self.exact_keys.add(kk)
+            if same is not None:
+                return same if isinstance(op, (ast.Is, ast.Eq)) else (not same)
+        if isinstance(op, (ast.In, ast.NotIn)):
+            kl = self._class_key(l)
+            if kl is not None and (kl == _UNKNOWN_CLASS or self._came_from_type(l)):
+                rr = self._resolved(r)
+                keys = None
+                if isinstance(rr, (ast.Tuple, ast.List, ast.Set)):
+                    keys = [self._class_key(x) for x in rr.elts]
+                else:
+                    ent = self._dict_entries(rr)
+                    if ent is not None:
+                        keys = [self._class_key(x) for (x, _v) in ent]
+                if keys is not None and all(x is not None for x in keys):
+                    found = kl != _UNKNOWN_CLASS and kl in keys
+                    return found if isinstance(op, ast.In) else (not found)
+        return None
+
+    def _came_from_type(self, e):
+        return getattr(e, "_from_type", False)
+
+    def _kind_of_value(self, x):
+        """What an evaluated expression evidently is: ('member', EnumClass) for `EnumClass.member` of a repository Enum,
+        ('function', name) for a function of the repository, ('const', type name) for a literal; else None."""
+        if isinstance(x, ast.Constant):
+            return ("const", type(x.value).__name__ if x.value is not None else "None")
+        d = A.dotted(x)
+        if d is None:
+            return None
+        parts = d.split(".")
+        if parts[0] in self.params or self.fa.df.is_local(parts[0]):
+            return None
+        if len(parts) == 2 and enum_members(self.fa, ast.Name(id=parts[0], ctx=ast.Load())) is not None:
+            return ("member", parts[0])
+        if len(parts) == 1:
+            f = self.fa.ck.repo.try_func("%s.%s" % (self.fa.fi.module.name, parts[0]))
+            if f is not None and f.cls is None:
+                return ("function", parts[0])
+        return None
+
+    def _call(self, e, env, w):
+        f = e.func
+        args = [self.ev(a.value, env, w) if isinstance(a, ast.Starred) else self.ev(a, env, w) for a in e.args]
+        if isinstance(f, ast.Name) and f.id not in env:
+            if f.id == "isinstance" and len(args) == 2 and not e.keywords and self._is_subject(args[0]):
+                names = self._type_names(args[1])
+                if names is not None:
+                    for n_ in names:
+                        self.asked.setdefault(n_, e)
+                    return self._const(any(self._isa(w, n_) for n_ in names))
+            if f.id == "isinstance" and len(args) == 2 and not e.keywords:
+                # a table entry that is either an enum member or a function working it out
+                kv, names = self._kind_of_value(args[0]), self._type_names(args[1])
+                if kv is not None and names is not None:
+                    if kv[0] == "member":
+                        return self._const(kv[1] in names or "Enum" in [n_.split(".")[-1] for n_ in names])
+                    if kv[0] == "function" and not any(n_.split(".")[-1] in ("Callable", "FunctionType", "object") for n_ in names):
+                        return self._const(False)
+            if f.id == "callable" and len(args) == 1 and not e.keywords:
+                kv = self._kind_of_value(args[0])
+                if kv is not None and kv[0] in ("function", "member"):
+                    return self._const(kv[0] == "function")
+            if f.id == "type" and len(args) == 1 and not e.keywords and self._is_subject(args[0]):
+                c = self._class_expr(w)
+                c._from_type = True
+                return c
+            if f.id == "cast" and len(args) == 2:
+                return args[1]
+            if f.id == "next" and 1 <= len(args) <= 2 and isinstance(e.args[0], ast.GeneratorExp):
+                r = self._next(e.args[0], args[1] if len(args) == 2 else None, env, w)
+                if r is not None:
+                    return r
+        if not e.keywords and not any(isinstance(a, ast.Starred) for a in e.args) and any(self._is_subject(a) for a in args):
+            called = e
+            if isinstance(f, ast.Name) and f.id in env:
+                called = ast.Call(func=env[f.id], args=list(e.args), keywords=[])   # a function picked from a table
+            r = self._helper_call(called, args, w)
+            if r is not None:
+                return r
+        if isinstance(f, ast.Attribute) and f.attr == "get" and 1 <= len(args) <= 2 and not e.keywords:
+            recv = self.ev(f.value, env, w)
+            default = args[1] if len(args) == 2 else self._const(None)
+            hit = self._lookup(recv, args[0], default)
+            if hit is not None:
+                return hit
+        new = ast.Call(func=self.ev(f, env, w) if not isinstance(f, ast.Name) else (env.get(f.id, f)),
+                       args=[ast.Starred(value=v, ctx=ast.Load()) if isinstance(a, ast.Starred) else v for a, v in zip(e.args, args)],
+                       keywords=[ast.keyword(arg=k.arg, value=self.ev(k.value, env, w)) for k in e.keywords])
+        return new
+
+    def _helper_call(self, e, args, w, _depth=[0]):
+        """Value of a call that hands the subject to another function of the repository (part of the dispatch moved into a
+        helper that was not written back into the caller), when that function answers it with one value in this world."""
+        callee, off = resolve_callee(self.fa, e)
+        if callee is None or callee.node is self.node or _depth[0] >= 3:
+            return None
+        a = callee.node.args
+        if a.vararg or a.kwarg or a.kwonlyargs:
+            return None
+        params = [x.arg for x in a.posonlyargs + a.args][off:]
+        if len(params) != len(args):
+            return None
+        _depth[0] += 1
+        try:
+            env = dict(zip(params, args))
+            comps = self._block(callee.node.body, env, w)
+        except _Unsupported:
+            return None
+        finally:
+            _depth[0] -= 1
+        vals = {(kind, val or "") for (kind, _env, val) in comps}
+        self.helper_returns |= {val for (kind, val) in vals if kind == "return"}
+        if len(vals) == 1:
+            (kind, val) = next(iter(vals))
+            if kind == "return":
+                try:
+                    return ast.parse(val, mode="eval").body
+                except SyntaxError:
+                    return None
+            if kind == "fall":
+                return self._const(None)
+        return None
+
+    def _next(self, gen, default, env, w):
+        """`next((E for t in TABLE if C), default)` over a literal table: the first element whose condition holds."""
+        if len(gen.generators) != 1 or gen.generators[0].is_async:
+            return None
+        g = gen.generators[0]
+        elems = self._seq_elems(self.ev(g.iter, env, w), 0, env, w)
+        if elems is None:
+            return None
+        for el in elems:
+            e2 = dict(env)
+            self._bind(g.target, el, e2)
+            ok = True
+            for c in g.ifs:
+                t = self._tv(self.ev(c, e2, w))
+                if t is None:
+                    return None
+                if not t:
+                    ok = False
+                    break
+            if ok:
+                return self.ev(gen.elt, e2, w)
+        return default  # None: StopIteration -- not modelled
+
+    # ---- statements -------------------------------------------------------------------------------
+    def _bind(self, target, value, env):
+        if isinstance(target, ast.Name):
+            env[target.id] = value
+        elif isinstance(target, (ast.Tuple, ast.List)):
+            if isinstance(value, (ast.Tuple, ast.List)) and len(value.elts) == len(target.elts) \
+                    and not any(isinstance(x, ast.Starred) for x in list(value.elts) + list(target.elts)):
+                for t, v in zip(target.elts, value.elts):
+                    self._bind(t, v, env)
+            else:
+                for i, t in enumerate(target.elts):
+                    if isinstance(t, ast.Starred):
+                        self._bind(t.value, ast.Name(id="_rest", ctx=ast.Load()), env)
+                    else:
+                        self._bind(t, ast.Subscript(value=value, slice=ast.Constant(value=i), ctx=ast.Load()), env)
+        # attribute / subscript targets: not part of the dispatch
+
+    @staticmethod
+    def _dedupe(envs):
+        seen, out = set(), []
+        for e in envs:
+            k = tuple(sorted((n, A.norm(v)) for n, v in e.items()))
+            if k not in seen:
+                seen.add(k)
+                out.append(e)
+        return out
+
+    def _block(self, stmts, env, w):
+        states, out = [env], []
+        for st in stmts:
+            nxt = []
+            for e in states:
+                for (kind, e2, val) in self._stmt(st, e, w):
+                    if kind == "fall":
+                        nxt.append(e2)
+                    else:
+                        out.append((kind, e2, val))
+            states = self._dedupe(nxt)
+            if len(states) + len(out) > self.CAP:
+                raise _Unsupported("too many path classes")
+            if not states:
+                break
+        return out + [("fall", e, None) for e in states]
+
+    def _loop_once(self, st, env, w, targets):
+        """A loop over something that is not a literal table: not entered, or its body run once on opaque elements."""
+        out = [("fall", env, None)]
+        e2 = dict(env)
+        for n in targets:
+            e2[n] = ast.Name(id="_elem_%s" % n, ctx=ast.Load())
+        for (kind, e3, val) in self._block(st.body, e2, w):
+            if kind in ("fall", "continue", "break"):
+                out.append(("fall", e3, None))
+            else:
+                out.append((kind, e3, val))
+        res = []
+        for (kind, e3, val) in out:
+            if kind == "fall" and getattr(st, "orelse", None):
+                res += self._block(st.orelse, e3, w) + [("fall", e3, None)]
+            else:
+                res.append((kind, e3, val))
+        return res
+
+    def _stmt(self, st, env, w):
+        if isinstance(st, ast.Return):
+            v = self.ev(st.value, dict(env), w) if st.value is not None else self._const(None)
+            return [("return", env, A.norm(v))]
+        if isinstance(st, ast.Raise):
+            if st.exc is None:
+                return [("raise", env, "<re-raise>")]
+            x = self.ev(st.exc, dict(env), w)
+            return [("raise", env, A.norm(x.func) if isinstance(x, ast.Call) else A.norm(x))]
+        if isinstance(st, ast.If):
+            e2 = dict(env)
+            t = self._tv(self.ev(st.test, e2, w))
+            out = []
+            if t is not False:
+                out += self._block(st.body, dict(e2), w)
+            if t is not True:
+                out += self._block(st.orelse, dict(e2), w)
+            return out
+        if isinstance(st, ast.Assign):
+            e2 = dict(env)
+            v = self.ev(st.value, e2, w)
+            for t in st.targets:
+                self._bind(t, v, e2)
+            return [("fall", e2, None)]
+        if isinstance(st, ast.AnnAssign):
+            e2 = dict(env)
+            if st.value is not None:
+                self._bind(st.target, self.ev(st.value, e2, w), e2)
+            return [("fall", e2, None)]
+        if isinstance(st, ast.AugAssign):
+            e2 = dict(env)
+            if isinstance(st.target, ast.Name):
+                cur = e2.get(st.target.id, ast.Name(id=st.target.id, ctx=ast.Load()))
+                e2[st.target.id] = ast.BinOp(left=cur, op=st.op, right=self.ev(st.value, e2, w))
+            return [("fall", e2, None)]
+        if isinstance(st, (ast.For, ast.AsyncFor)):
+            e0 = dict(env)
+            elems = self._seq_elems(self.ev(st.iter, e0, w), 0, e0, w)
+            if elems is None:
+                return self._loop_once(st, e0, w, [n.id for n in ast.walk(st.target) if isinstance(n, ast.Name)])
+            states, out, broke = [e0], [], []
+            for el in elems:
+                nxt = []
+                for e in states:
+                    e2 = dict(e)
+                    self._bind(st.target, el, e2)
+                    for (kind, e3, val) in self._block(st.body, e2, w):
+                        if kind in ("fall", "continue"):
+                            nxt.append(e3)
+                        elif kind == "break":
+                            broke.append(e3)
+                        else:
+                            out.append((kind, e3, val))
+                states = self._dedupe(nxt)
+                if len(states) + len(out) + len(broke) > self.CAP:
+                    raise _Unsupported("too many path classes")
+            for e in states:
+                out += self._block(st.orelse, e, w)
+            return out + [("fall", e, None) for e in self._dedupe(broke)]
+        if isinstance(st, ast.While):
+            return self._loop_once(st, dict(env), w, [])
+        if isinstance(st, (ast.With, ast.AsyncWith)):
+            e2 = dict(env)
+            for it in st.items:
+                if it.optional_vars is not None:
+                    for n in ast.walk(it.optional_vars):
+                        if isinstance(n, ast.Name):
+                            e2[n.id] = ast.Name(id="_with_%s" % n.id, ctx=ast.Load())
+            return self._block(st.body, e2, w)
+        if isinstance(st, ast.Try) or st.__class__.__name__ == "TryStar":
+            out = []
+            body = self._block(list(st.body), dict(env), w)
+            after = []
+            for (kind, e2, val) in body:
+                if kind == "fall":
+                    after += self._block(list(st.orelse), e2, w)
+                else:
+                    after.append((kind, e2, val))
+                if kind == "raise" and st.handlers:
+                    for h in st.handlers:
+                        e3 = dict(e2)
+                        if h.name:
+                            e3[h.name] = ast.Name(id="_exc_%s" % h.name, ctx=ast.Load())
+                        after += self._block(list(h.body), e3, w)
+            for h in st.handlers:     # any statement of the body may raise
+                e3 = dict(env)
+                if h.name:
+                    e3[h.name] = ast.Name(id="_exc_%s" % h.name, ctx=ast.Load())
+                after += self._block(list(h.body), e3, w)
+            if not st.finalbody:
+                return after
+            for (kind, e2, val) in after:
+                for (k2, e3, v2) in self._block(list(st.finalbody), e2, w):
+                    out.append((kind, e3, val) if k2 == "fall" else (k2, e3, v2))
+            return out
+        if isinstance(st, ast.Expr):
+            e2 = dict(env)
+            self.ev(st.value, e2, w)   # walrus bindings; the value is dropped
+            return [("fall", e2, None)]
+        if isinstance(st, ast.Break):
+            return [("break", env, None)]
+        if isinstance(st, ast.Continue):
+            return [("continue", env, None)]
+        if isinstance(st, (ast.Pass, ast.Assert, ast.Global, ast.Nonlocal, ast.Import, ast.ImportFrom, ast.Delete,
+                           ast.FunctionDef, ast.AsyncFunctionDef, ast.ClassDef)):
+            return [("fall", env, None)]
+        raise _Unsupported("statement %s" % type(st).__name__)
+
+
+def dispatch_model(ck, fa, pairs):
+    """The Dispatch of a function (cached per checker run and function), or None when its body is not understood."""
+    memo = ck.__dict__.setdefault("_dispatch_models", {})
+    k = (fa.qual, id(fa.node))
+    if k not in memo:
+        try:
+            memo[k] = Dispatch(fa, pairs)
+        except AnalysisError:
+            raise
+        except Exception:  # a construct the abstract run does not model: the callers fall back / fail closed
+            memo[k] = None
+    return memo[k]
 
 
 def _types_of_test(test):
@@ -117,10 +1232,59 @@ def _rung_literal(fa: FA, rung, name):
 
 
 def check_ladder_order(ck, rule, fa: FA, ladder, pairs, label):
-    """For each (sub, sup) both tested with different outcomes: a `sub` value never takes sup's outcome, i.e.
-    sup's outcome is only reached with `isinstance(x, sub)` already found false.  Decided on the path conditions
-    of sup's outcome (so it does not matter whether the dispatch is written as early returns, an elif chain or
-    nested else blocks); for handler lists, and when the conditions cannot be enumerated, by position."""
+    """For each (sub, sup) that the dispatch both names, with different outcomes: a `sub` value never takes sup's outcome.
+    Decided on what the function answers for a value of class `sub` (exactly, and for an unnamed subclass of it) under
+    the class hierarchy, compared with what the rung written for `sup` answers -- whatever the dispatch is written as
+    (early returns, elif chain, nested else, first-match loop over a table, exact-class look-up in front).  Handler
+    lists are ordered by position; a function body the abstract run does not understand is decided on the path
+    conditions of sup's rung as before."""
+    is_handlers = bool(ladder) and all(isinstance(nd, ast.ExceptHandler) for (_t, _o, nd) in ladder)
+    D = None if is_handlers else dispatch_model(ck, fa, pairs)
+    if D is not None:
+        n_before = len(ck.obs)
+        try:
+            return _check_dispatch_order(ck, rule, fa, D, pairs, label)
+        except AnalysisError:
+            raise
+        except Exception:
+            del ck.obs[n_before:]
+    return _check_ladder_order_by_rungs(ck, rule, fa, ladder, pairs, label)
+
+
+def _check_dispatch_order(ck, rule, fa, D, pairs, label):
+    names = set(D.named())
+    verdicts = []
+    for (sub, sup) in pairs:
+        if sub == sup or sub not in names or sup not in names:
+            continue
+        # what the rungs written for `sub` and for `sup` answer (a value of an unnamed subclass reaches no exact-class table)
+        own_sub, own_sup = D.outcome((sub, "sub", "own")), D.outcome((sup, "sub", "own"))
+        if own_sub == own_sup:
+            continue
+        # ... and what a `sub` value really gets: exactly that class (exact-class tables apply) or a subclass of it
+        # (no way out that only sup's rung offers -- also when that rung is entered under a further condition)
+        only_sup = own_sup - own_sub
+        ok = all(not (D.outcome((sub, kind, "actual")) & only_sup) for kind in ("exact", "sub"))
+        verdicts.append((sub, sup, ok))
+    # an exact-class look-up in front of the dispatch answers for a direct instance what the dispatch itself answers for
+    # the class (i.e. for an instance of an unnamed subclass, which the look-up does not know)
+    for k in sorted(D.exact_keys):
+        direct, through = D.outcome((k, "exact", "actual")), D.outcome((k, "sub", "actual"))
+        if k in ("bool", "None", "NoneType"):
+            continue  # cannot be subclassed
+        okx = direct == through
+        ck.ob(rule, fa.key(None, "%s:exact-class-table-agrees:%s" % (label, k)), okx,
+              "the exact-class look-up answers for %s what the dispatch answers" % k if okx else
+              "a direct instance of %s is answered %s by the exact-class look-up, an instance of a subclass of it %s by the dispatch behind it: "
+              "the two disagree" % (k, sorted(v for (_k, v) in direct), sorted(v for (_k, v) in through)), fa.where(D.where_of(k)))
+    for (sub, sup, ok) in verdicts:
+        ck.ob(rule, fa.key(None, "%s:%s-before-%s" % (label, sub, sup)), ok,
+              "%s is tested before its superclass %s" % (sub, sup) if ok else
+              "%s is tested after its superclass %s: a %s value takes the %s branch" % (sub, sup, sub, sup), fa.where(D.where_of(sup)))
+    return len(verdicts)
+
+
+def _check_ladder_order_by_rungs(ck, rule, fa: FA, ladder, pairs, label):
     def idx_of(name):
         for i, (types, outcome, node) in enumerate(ladder):
             if name in types:
@@ -147,12 +1311,27 @@ def check_ladder_order(ck, rule, fa: FA, ladder, pairs, label):
     return n
 
 
-def handler_ladder(try_node):
+def handler_type_names(h, consts=None):
+    """Names of the exception classes a handler catches ([] for a bare except); a module-level name bound to a tuple of
+    classes (also nested / concatenated tuples) is looked through."""
+    consts = consts or {}
+
+    def names(t, depth=0):
+        if depth > 4:
+            return [A.norm(t)]
+        if isinstance(t, (ast.Tuple, ast.List)):
+            return [n for x in t.elts for n in names(x, depth + 1)]
+        if isinstance(t, ast.BinOp) and isinstance(t.op, ast.Add):
+            return names(t.left, depth + 1) + names(t.right, depth + 1)
+        if isinstance(t, ast.Name) and isinstance(consts.get(t.id), (ast.Tuple, ast.List, ast.BinOp)):
+            return names(consts[t.id], depth + 1)
+        return [A.norm(t)]
+
+    return [] if h.type is None else names(h.type)
+
+
+def handler_ladder(try_node, consts=None):
     out = []
     for h in try_node.handlers:
-        if h.type is None:
-            out.append((["BaseException"], _outcome(h.body), h))
-        else:
-            ts = h.type.elts if isinstance(h.type, ast.Tuple) else [h.type]
-            out.append(([A.norm(t) for t in ts], _outcome(h.body), h))
+        out.append((handler_type_names(h, consts) or ["BaseException"], _outcome(h.body), h))
     return out
